@@ -173,24 +173,21 @@ def reduce_shape(cx, rule='ATTRSET'):
         ], ['SUP', 'RV', 'FS'])
     sst = Fn(cx, 'io.FCSData.__setstate__')
     st = sst.params[1]
-    env = {}
-    names = {}
-    for s in sst.stmts(ast.Assign):
-        if isinstance(s.targets[0], ast.Name):
-            names.setdefault(s.targets[0].id, len(names))
-    env = {n: ('var', 'v%d' % i) for n, i in names.items()}
-    head = [s for s in sst.ast.body if not isinstance(s, ast.Expr) and not (
-        isinstance(s, ast.Assign) and isinstance(s.targets[0], ast.Attribute))]
-    got = sym.norm_block(head, env)
-    want = sym.norm_block(ast.parse(
-        "A = %s[0]\nif len(%s) > 1:\n    B = %s[1]\n    super(FCSData, self).__setstate__(B)\n" % (st, st, st)).body,
-        {'A': ('var', 'v0'), 'B': ('var', 'v1')})
-    want2 = sym.norm_block(ast.parse(
-        "A = %s[0]\nif len(%s) > 1:\n    B = %s[1]\n    np.ndarray.__setstate__(self, B)\n" % (st, st, st)).body,
-        {'A': ('var', 'v0'), 'B': ('var', 'v1')})
-    ok = got in (want, want2)
+    # NumPy's part of the state goes back to ndarray.__setstate__ (either spelling of the call), when there is one,
+    # before the attributes are restored; written with or without temporaries
+    direct = [c for c in sst.calls() if dotted(c.func) == 'np.ndarray.__setstate__']
+    call = 'np.ndarray.__setstate__(self, %s[1])' % st if direct else 'super(FCSData, self).__setstate__(%s[1])' % st
+    bset = inventory(sst, rule, [
+        ('the FCSData part of the state is the first element', 'FS = %s[0]' % st),
+        ('NumPy\'s part, when present, is the second', 'if len(%s) > 1:' % st),
+        ('... and is handed to ndarray.__setstate__', call),
+    ], ['FS'])
+    m_ = bset.get('__matched__', {})
+    sup = m_.get('... and is handed to ndarray.__setstate__')
+    first_attr = [s_ for s_ in sst.stmts(ast.Assign) if isinstance(s_.targets[0], ast.Attribute) and dotted(s_.targets[0].value) == 'self']
+    ok = sup is not None and bool(first_attr) and all(sup.lineno < s_.lineno for s_ in first_attr)
     sst.ob(rule, '__setstate__ gives NumPy\'s part of the state back to ndarray.__setstate__ before restoring attributes', ok,
-           sst.ast, detail='' if ok else 'prologue differs', key='setstate-super')
+           sup if sup is not None else sst.ast, detail='' if ok else 'prologue differs', key='setstate-super')
 
 
 def eqhash(cx, rule='EQHASH'):
